@@ -72,6 +72,14 @@ def main(tier, rep):
                     steps = [("call", "get", None, None, "all"), ("tick", 5), ("call", op, None, fault, "all"), ("tick", 1),
                              ("call", "get", None, None, "all")]
                     traces.append(L.run_program(cfg, steps, miss=L.miss_result(cfg)))
+        # two faults in one call: the pooled connection turns out to be dead (end of stream) and the server cannot be reached again
+        for kind in ("pooled", "hashpooled", "client"):
+            for op, _ in READS:
+                for second in ({("connect", 1): "refused"}, {("connect", 1): "timeout"}, {("sendall", 2): "reset"}):
+                    cfg = L.Cfg(kind=kind, ignore_exc=True, max_pool=1)
+                    steps = [("call", "get", None, None, "all"), ("tick", 1),
+                             ("call", op, None, {("recv", 1): "eof", **second}, "all"), ("tick", 1), ("call", "get", None, None, "all")]
+                    traces.append(L.run_program(cfg, steps, miss=L.miss_result(cfg)))
         # failing deserialiser
         for kind in L.KINDS:
             for op, _ in READS:
